@@ -812,6 +812,37 @@ func runPrecedence(c *fw.Ctx) {
 		} else if fs.kind == "Type0" {
 			return // Identity-H without ToUnicode has no specified Unicode
 		}
+		unusable := ""
+		if !withTU && j.k%8 == 4 {
+			// a /ToUnicode entry that gives no map at all (its stream cannot be decoded,
+			// the object is missing or null): the font still specifies its encoding.
+			// Codes rendered as nothing or U+FFFD are tolerated, other characters are not.
+			switch r.Intn(4) {
+			case 0:
+				junk := make([]byte, 40+r.Intn(60))
+				r.Read(junk)
+				junk[0], junk[1] = 0x78, 0x9c // a zlib header in front of noise
+				fs.toUnicode = &core.Stream{Dict: core.Dict{"Filter": core.Name("FlateDecode"), "Length": core.Int(len(junk))}, Data: junk}
+				unusable = "corrupt-flate"
+			case 1:
+				prog := []byte("/CIDInit /ProcSet findresource begin 12 dict begin begincmap 1 begincodespacerange <00> <FF> endcodespacerange endcmap end end")
+				fs.toUnicode = &core.Stream{Dict: core.Dict{"Filter": core.Name("JBIG2Decode"), "Length": core.Int(len(prog))}, Data: prog}
+				unusable = "unsupported-filter"
+			case 2:
+				var zb bytes.Buffer
+				zw := zlib.NewWriter(&zb)
+				zw.Write(bytes.Repeat([]byte("1 beginbfchar <41> <0042> endbfchar\n"), 40))
+				zw.Close()
+				cut := zb.Bytes()[:2+r.Intn(6)]
+				fs.toUnicode = &core.Stream{Dict: core.Dict{"Filter": core.Name("FlateDecode"), "Length": core.Int(len(cut))}, Data: append([]byte{}, cut...)}
+				unusable = "flate-cut-in-header"
+			default:
+				fs.toUnicode = &core.Stream{Dict: core.Dict{"Filter": core.Array{core.Name("ASCIIHexDecode"), core.Name("FlateDecode")}, "Length": core.Int(9)}, Data: []byte("zz not hex")}
+				unusable = "bad-hex-then-flate"
+			}
+			fs.tuIndirect = r.Intn(2) == 0
+			c.Seen("prec_feature", "unusable ToUnicode stream: "+unusable)
+		}
 		c.Seen("font_path", fs.String())
 		detail := map[string]any{"font": fs.String()}
 		if cc != nil {
@@ -820,6 +851,10 @@ func runPrecedence(c *fw.Ctx) {
 		}
 		c.Guard("prec", j.id, detail, func() {
 			f, err := fs.build()
+			if err != nil && unusable != "" {
+				c.Count("prec_unusable_tounicode_font_refused", 1)
+				return
+			}
 			if err != nil {
 				c.Case("prec|"+j.id, false)
 				c.Fail("", "font-build/"+fs.kind, j.id, "font construction failed on a well-formed dictionary: "+err.Error(), detail)
@@ -881,6 +916,14 @@ func runPrecedence(c *fw.Ctx) {
 			c.Case("prec-enc|"+fs.String()+"|"+string(data), true)
 			got := f.DecodeString(data)
 			c.Count("prec_encoding_strings_checked", 1)
+			if unusable != "" {
+				c.Count("prec_unusable_tounicode_fonts_checked", 1)
+				if strings.Trim(got, "\uFFFD") == "" {
+					c.Count("prec_unusable_tounicode_rendered_as_unknown", 1)
+					return
+				}
+				detail["tounicode"] = unusable
+			}
 			if enc.Canon(got) != enc.Canon(want.String()) || !norm.NFC.IsNormalString(got) {
 				detail["codes"] = hexShort(data)
 				detail["got"] = short(got)
